@@ -182,7 +182,7 @@ type c09UnsatCase struct {
 func c09Unsat(c *core.Ctx) {
 	gen := func(yield func(c09UnsatCase) bool) {
 		alpha := []int{scen.ENone, scen.EName, scen.ESlice}
-		kinds := []string{"name-req", "name-opt", "type-req", "type-opt", "cfg-req", "cfg-opt", "func-req", "func-opt", "custom-req", "custom-opt", "pfx-req", "pfx-opt"}
+		kinds := []string{"name-req", "name-opt", "type-req", "type-opt", "cfg-req", "cfg-opt", "func-req", "func-opt", "custom-req", "custom-opt", "pfx-req", "pfx-opt", "nametype-req", "nametype-opt"}
 		allGraphs(3, alpha, false, func(e [][]int) bool {
 			for _, lz := range []int{0, 4} {
 				lazy := []bool{false, false, lz == 4}
